@@ -91,7 +91,7 @@ func (this *RGBLuminanceSource) IsCropSupported() bool {
 }
 
 func (this *RGBLuminanceSource) Crop(left, top, width, height int) (LuminanceSource, error) {
-	if left+width > this.dataWidth || top+height > this.dataHeight {
+	if left < 0 || top < 0 || left+width > this.GetWidth() || top+height > this.GetHeight() {
 		return nil, errors.New("IllegalArgumentException: Crop rectangle does not fit within image data")
 	}
 	return &RGBLuminanceSource{
